@@ -246,6 +246,19 @@ func (a *Analysis) ruleF2() {
 	fk := fnKey(fn)
 	pos := a.P.Pos(fn.Pos())
 	e := a.eval(fn, &Ctx{Name: "any"})
+	// non-interference
+	for _, p := range stringParams(fn) {
+		bad, san := a.rawUses(p)
+		k := fk + "/raw/" + p.Name()
+		for _, b := range bad {
+			r.Bad("F2n", k, a.P.InstrPos(b.Instr), "", "%s: %s — the seed can differ between arguments with equal NFKD forms", fk, b.What)
+		}
+		if len(bad) == 0 && san == 0 {
+			r.Bad("F2n", k, pos, "", "argument %s never reaches an NFKD normalisation", p.Name())
+		} else if len(bad) == 0 {
+			r.OK("F2n", k, pos, "", "every use of %s is the operand of norm.NFKD (directly or after concatenation)", p.Name())
+		}
+	}
 	var key *CallRec
 	nKey := 0
 	for i := range e.Calls {
@@ -313,20 +326,7 @@ func (a *Analysis) ruleF2() {
 		switch c.Callee {
 		case "golang.org/x/crypto/pbkdf2.Key", "(golang.org/x/text/unicode/norm.Form).String", "(golang.org/x/text/unicode/norm.Form).Bytes", "len", "cap", "append":
 		default:
-			r.Bad("F2n", fk+"/extra-call", a.P.InstrPos(c.Instr), "", "%s also calls %s: the seed must be a function of the two NFKD forms only", fk, c.Callee)
-		}
-	}
-	// non-interference
-	for _, p := range sp {
-		bad, san := a.rawUses(p)
-		k := fk + "/raw/" + p.Name()
-		for _, b := range bad {
-			r.Bad("F2n", k, a.P.InstrPos(b.Instr), "", "%s: %s — the seed can differ between arguments with equal NFKD forms", fk, b.What)
-		}
-		if len(bad) == 0 && san == 0 {
-			r.Bad("F2n", k, pos, "", "argument %s never reaches an NFKD normalisation", p.Name())
-		} else if len(bad) == 0 {
-			r.OK("F2n", k, pos, "", "every use of %s is the operand of norm.NFKD (directly or after concatenation)", p.Name())
+			r.Bad("F2", fk+"/extra-call", a.P.InstrPos(c.Instr), "", "%s also calls %s: the seed must be a function of the two NFKD forms only", fk, c.Callee)
 		}
 	}
 	// no validation
